@@ -26,8 +26,8 @@ func (r *rng) intn(n int) int {
 	}
 	return int(r.u64() % uint64(n))
 }
-func (r *rng) bool() bool          { return r.u64()&1 == 1 }
-func (r *rng) pick(xs []int) int    { return xs[r.intn(len(xs))] }
+func (r *rng) bool() bool               { return r.u64()&1 == 1 }
+func (r *rng) pick(xs []int) int        { return xs[r.intn(len(xs))] }
 func (r *rng) picks(xs []string) string { return xs[r.intn(len(xs))] }
 func (r *rng) bytes(n int) []byte {
 	b := make([]byte, n)
